@@ -16,7 +16,8 @@ RULE = ('random Hermitian models (on-site, nearest and longer-range couplings in
         'E >= E0(sector) from dense eigh, convergence to E0 for untruncated two-site DMRG with mixer (bounded progress), environment '
         'invariant (full_contraction equal on all bonds) at the engine\'s checkpoint event, EffectiveH.to_matrix vs matvec; VUMPS '
         'on infinite TFI chains vs the exact energy density. non-trivial = interacting model with >= 4 sites; distinct = (engine, '
-        'mixer, diag_method, model signature)')
+        'mixer, diag_method, model signature)'
+        ' Also: models with explicit_plus_hc; a part for infinite DMRG (ledger over sweep() calls for the reported truncation statistics, canonical form, energy density vs H_MPO.expectation_value and the exact transverse-field Ising value); VUMPS runs stopped after 3-14 sweeps.')
 ASSUMPTIONS = ['C10/C07 (dense H of the MPO and dense state of the MPS)', 'degenerate ground spaces handled by projecting on the exact ground space']
 ANCHORS = {'tenpy/algorithms/dmrg.py': ['*'], 'tenpy/algorithms/mps_common.py': ['*'], 'tenpy/algorithms/vumps.py': ['*']}
 REQUIRED_COUNTERS = {'runs': 60, 'engine.TwoSiteDMRGEngine': 20, 'engine.SingleSiteDMRGEngine': 10, 'convergence.checked': 10,
